@@ -45,11 +45,7 @@ struct ValStats
     long bad_destroy{0}; // destructor ran on an object that was not alive (double destroy / garbage)
     long bad_use{0};     // copy/move/read from a dead object
 };
-#ifdef VF_GLOBAL_CLOCK
-extern ValStats g_vs;
-#else
 extern thread_local ValStats g_vs;
-#endif
 
 struct Val
 {
